@@ -6,6 +6,15 @@
 
 #include "values.h"
 
+/* encoded fraction of the way from the hidden value to its visible neighbour at which the limit is crossed */
+static int _crossing(double lim, double out, double in)
+{
+	/* halved terms can not overflow, the quotient is the same */
+	int code = mpt_linepart_code((lim * 0.5 - out * 0.5) / (in * 0.5 - out * 0.5));
+	/* an existing crossing must not be encoded as "not cut" */
+	return code < 1 ? 1 : code;
+}
+
 /*!
  * \ingroup mptPlot
  * \brief get line part
@@ -43,13 +52,13 @@ extern void mpt_linepart_linear(MPT_STRUCT(linepart) *part, const double *from, 
 	/* partial first */
 	if (*from < min) {
 		if (len >= 2 && from[1] >= min && from[1] <= max) {
-			part->_cut = mpt_linepart_code((min-from[0])/(from[1]-from[0]));
+			part->_cut = _crossing(min, from[0], from[1]);
 			part->raw = part->usr = 2; from += 2; len -= 2;
 		}
 	}
 	else if (*from > max) {
 		if (len >= 2 && from[1] >= min && from[1] <= max) {
-			part->_cut = mpt_linepart_code((from[0]-max)/(from[0]-from[1]));
+			part->_cut = _crossing(max, from[0], from[1]);
 			part->raw = part->usr = 2; from += 2; len -= 2;
 		}
 	}
@@ -58,14 +67,14 @@ extern void mpt_linepart_linear(MPT_STRUCT(linepart) *part, const double *from, 
 	while (len) {
 		if (*from < min) {
 			if (part->usr) {
-				part->_trim = mpt_linepart_code((min-from[0])/(from[-1]-from[0]));
+				part->_trim = _crossing(min, from[0], from[-1]);
 				++part->usr;
 			}
 			break;
 		}
 		if (*from > max) {
 			if (part->usr) {
-				part->_trim = mpt_linepart_code((from[0]-max)/(from[0]-from[-1]));
+				part->_trim = _crossing(max, from[0], from[-1]);
 				++part->usr;
 			}
 			break;
